@@ -50,7 +50,8 @@ RULE = ("random SELECT queries (BGPs of 1-4 patterns over <=4 variables, joins o
         "triples in 0-3 named graphs; each case poses the query in two or more ways the property calls equivalent "
         "(rewrites, initBindings vs VALUES, prepared vs fresh, store back ends incl. aggregates whose members live in "
         "different stores and share a graph name, the same undeclared-prefix text under different prefix bindings "
-        "in sequence); non-trivial = the reference "
+        "in sequence); td stream: OPTIONAL / MINUS / FILTER / BIND / VALUES / GRAPH / UNION / nested-group queries evaluated "
+        "by the Lean top-down evaluator, with and without initBindings, over a Graph or a Dataset; non-trivial = the reference "
         "evaluation has at least one solution and at least one comparison was made; distinct = distinct "
         "(stream, data, query, recipe)")
 ASSUMPTIONS = [
